@@ -13,7 +13,7 @@ From Coq Require Import ZArith List Bool String.
 Import ListNotations.
 From TD Require Import Spec.PySlice Spec.C02_TorchShape Model.C02_ShapeOps
                        Proofs.C02_FrameP Proofs.C02_OpsP Proofs.C02_RefuteP Proofs.C02_MultiP Proofs.C02_StackP
-                       Proofs.C02_NamesP.
+                       Proofs.C02_NamesP Proofs.C02_RejectP.
 Open Scope string_scope.
 Open Scope Z_scope.
 
@@ -94,6 +94,32 @@ Theorem C02_stack : forall t others d bs',
   exists t', td_stack (t :: others) d = Done t' /\ top_shape t' = bs' /\ rel (top_shape t) bs' t t' /\ wf t'.
 Proof. exact stack_acts_on_batch_dims. Qed.
 Print Assumptions C02_stack.
+
+(* masked_select by a mask of the batch shape holding cnt True entries *)
+Theorem C02_masked_select : forall t cnt,
+  wf t -> is_node t -> 0 <= cnt ->
+  t_masked_select (top_shape t) (top_shape t) cnt = Ok [cnt] /\
+  exists t', td_masked_select t (top_shape t) cnt = Done t' /\ top_shape t' = [cnt] /\ rel (top_shape t) [cnt] t t'.
+Proof. exact masked_select_acts_on_batch_dims. Qed.
+Print Assumptions C02_masked_select.
+
+(* ---------------------------------------------------------------------------------------------------------------
+   Illegal arguments.  Full statement: whatever torch rejects for the batch shape, tensordict rejects.  It is refuted
+   (C02_D4_*, C02_D22_*, C02_S5_* above: split(list), stack, flatten; also cat, repeat_interleave, gather and every
+   operation on a tensordict without entries, Proofs/C02_RefuteP.v); it holds for the operations whose guards tensordict
+   checks itself, for every tree (even without entries): *)
+Definition C02_illegal_rejected_full_statement : Prop :=
+  forall bs nm ents o, user_op o -> torch_shape o bs = Reject -> exists k, apply (Node bs nm ents) o = Raised k.
+
+Theorem C02_illegal_rejected_partial : forall bs nm ents o,
+  reject_domain o bs -> torch_shape o bs = Reject -> exists k, apply (Node bs nm ents) o = Raised k.
+Proof. exact illegal_is_rejected. Qed.
+Print Assumptions C02_illegal_rejected_partial.
+
+Theorem C02_illegal_rejected_refuted :
+  t_view [3; 3] [3] = Reject /\ apply (Node [3; 3] None []) (OView [3]) = Done (Node [3] None []).
+Proof. exact C02l_leafless_accepts. Qed.
+Print Assumptions C02_illegal_rejected_refuted.
 
 (* ---------------------------------------------------------------------------------------------------------------
    Dimension names travel with their dimensions: the result's names are the input's names read through the same
@@ -218,3 +244,7 @@ Proof.
   split; [exact ex_tree_ukeys|]. split; [exact ex_tree_cong|]. split; [vm_compute; reflexivity|].
   eexists. split; vm_compute; reflexivity.
 Qed.
+
+Example C02_ex_reject : reject_domain (OPermute [0; 0; 1]) (top_shape ex_tree) /\ torch_shape (OPermute [0; 0; 1]) (top_shape ex_tree) = Reject
+  /\ reject_domain (OTranspose 3 0) (top_shape ex_tree) /\ torch_shape (OTranspose 3 0) (top_shape ex_tree) = Reject.
+Proof. repeat split; try discriminate; vm_compute; reflexivity. Qed.
